@@ -96,7 +96,8 @@ def run_kani(units, per_harness_timeout=300, jobs=16):
         cmd += ["--harness", harness_path(u)]
     total_to = 600 + per_harness_timeout * (1 + len(units) // max(1, jobs // 2))
     rc, out, secs, timed_out = run(cmd, cwd=WORK, timeout=total_to)
-    run(["pkill", "-9", "-x", "cbmc"])  # cargo kani leaves cbmc running after a timeout
+    # (run() starts cargo kani in its own session and kills that whole process group on timeout,
+    #  so no cbmc of ours survives; never pkill globally - other checks may be running)
     results = {}
     if timed_out:
         raise Undecided(f"cargo kani overall timeout after {secs:.0f}s")
@@ -169,7 +170,6 @@ def counterexample(u, timeout=600):
     cmd = ["cargo", "kani", "-Z", "stubbing", "-Z", "function-contracts", "-Z", "concrete-playback",
            "--concrete-playback=print", "--output-format", "terse", "--exact", "--harness", harness_path(u)]
     rc, out, secs, to = run(cmd, cwd=WORK, timeout=timeout)
-    run(["pkill", "-9", "-x", "cbmc"])
     cexs = []
     for m in re.finditer(r"/// Check for `[^`]*`: \"(.*?)\"\n(.*?)kani::concrete_playback_run", out, re.S):
         check = m.group(1)
